@@ -30,7 +30,7 @@ TRUSTED = ['harness/c09 encodes driver events by hand from the flyweight layouts
 def generate(rng, tier):
     cc.clean_scratch()
     cases = list(cc.scripted())
-    n = 500 if tier != 'thorough' else 6000
+    n = 500 if tier != 'thorough' else 20000
     for _ in range(n):
         cases.append(cc.gen_history(rng, tier, 'protocol' if rng.random() < 0.75 else 'faults'))
     return cases
